@@ -161,8 +161,13 @@ def _same_as_fresh(root, fresh_root, rels_pairs):
                 extra = sorted(set(ka) - set(kb))
                 diffs.append((os.path.basename(a), 'dir_differs', extra[:5]))
             continue
+        if not os.path.exists(a) and not os.path.exists(b):
+            continue                      # neither call left a file: the same outcome
         if not os.path.exists(a):
             diffs.append((os.path.basename(a), 'missing'))
+            continue
+        if not os.path.exists(b):
+            diffs.append((os.path.basename(a), 'present_but_a_fresh_save_leaves_nothing'))
             continue
         with open(a, 'rb') as f:
             ba = f.read()
